@@ -264,6 +264,56 @@ theorem alloc_bounded_xmlResponse (hdrLen bodyLen n : Nat) (h : xmlResponseAlloc
   · simp at h
   · simp at h; omega
 
+/-! ## no spinning: the loop of UnsignedChunkReader.Read makes progress or ends -/
+
+theorem readLine_progress : ∀ (s l r : Bytes), readLine s = some (l, r) → r.length < s.length := by
+  intro s
+  induction s with
+  | nil => intro l r h; simp [readLine] at h
+  | cons c s ih =>
+    intro l r h
+    unfold readLine at h
+    split at h
+    · simp at h; obtain ⟨_, rfl⟩ := h; simp
+    · cases hr : readLine s with
+      | none => simp [hr] at h
+      | some p =>
+        obtain ⟨l', r'⟩ := p
+        simp [hr] at h
+        obtain ⟨_, rfl⟩ := h
+        have := ih l' r' hr
+        simp; omega
+
+/-- every size line that `Read`'s loop accepts consumes at least one byte of the stream: the number
+of remaining bytes is a measure of the loop (one extractChunkSize per iteration) -/
+theorem no_spin_extractChunkSize (s : Bytes) (n : Int) (r : Bytes) (h : extractChunkSizeOf s = some (n, r)) :
+    r.length < s.length := by
+  unfold extractChunkSizeOf at h
+  cases hl : readLine s with
+  | none => simp [hl] at h
+  | some p =>
+    obtain ⟨l, rest⟩ := p
+    simp only [hl] at h
+    cases he : extractChunkSize l with
+    | none => simp [he] at h
+    | some m =>
+      simp [he] at h
+      obtain ⟨_, rfl⟩ := h
+      exact readLine_progress s l rest hl
+
+/-- where the stream has no further line break — in particular at its clean end, whatever came
+before — extractChunkSize returns the error: it does not wait, skip or retry -/
+theorem extractChunkSize_at_end (s : Bytes) (h : (10 : UInt8) ∉ s) : extractChunkSizeOf s = none := by
+  have : readLine s = none := by
+    induction s with
+    | nil => rfl
+    | cons c s ih =>
+      simp at h
+      unfold readLine
+      rw [if_neg (fun e => h.1 e.symm), ih h.2]
+  unfold extractChunkSizeOf
+  rw [this]
+
 /-! ## the property over all modelled sites -/
 
 /-- every modelled defect site, in variant `fixed`, returns normally on every input -/
@@ -326,6 +376,9 @@ example : extractChunkSize [49, 52, 48, 48, 48, 48, 48, 48, 49] = none := by dec
 example : actionIsValid (fun _ => true) (fun _ => true) [115, 51, 58, 71] = .ok true := by decide
 example : walkRoot [97, 47, 98, 47, 99] = .ok (some [97, 47, 98]) := by decide
 example : escapeRequired (fun c => c = 32) [97, 32, 98] = 5 := by decide
+example : extractChunkSizeOf [53, 13, 10, 104] = some (5, [104]) := by decide     -- "5\r\nh"
+example : extractChunkSizeOf [] = none := by decide                                -- clean end of the stream
+example : extractChunkSizeOf [13, 10, 53, 13, 10] = none := by decide              -- an empty line is malformed, not skipped
 example : stashAlloc 10 20 = some 30 := by decide
 example : xmlResponseAlloc 38 100 = some 138 := by decide
 
